@@ -362,8 +362,8 @@ pub struct Item {
     pub range: bool,
 }
 
-// the wide target is in the BMP, the narrow one in a supplementary plane (value width of the emitted table)
-const BUNDLES: [(&str, u8, &str, &str); 3] = [("Lu", 0, "L", ""), ("Mn", 9, "NSM", "<wide> 0041"), ("Nd", 0, "AN", "<narrow> 1B000")];
+// the wide target is in a supplementary plane, the narrow one in the BMP (value width of the emitted table)
+const BUNDLES: [(&str, u8, &str, &str); 3] = [("Lu", 0, "L", ""), ("Mn", 9, "NSM", "<wide> 1B000"), ("Nd", 0, "AN", "<narrow> 0042")];
 
 fn tilings(n: u32, nb: u8, pos: u32, cur: &mut Vec<Item>, out: &mut Vec<Vec<Item>>) {
     if pos == n {
